@@ -9,18 +9,27 @@ PROP = 'C12'
 PROPS_FILE = 'Props/C12.v'
 PARALLEL = False
 RULE = ('real compute_features_3d / BycycleGroup.fit for every shape (n0, n1) in {1,2,3}^2 (incl. n0 != n1 and size-1 '
-        'dimensions), the three axis modes, shared dict / 1-D per-slice list / 2-D per-signal list of pairwise different '
-        'option sets, C-ordered / Fortran-ordered / transposed-view arrays, n_jobs in {1, 3}, perturbed completion orders; every returned table matched against candidates computed '
-        'directly (compute_features for axis=(0,1); compute_features_2d(axis=None) of every row / column slice for axis 0 / 1); '
-        'placement matrix compared with the model; non-trivial = n0*n1 >= 2')
+        'dimensions) x the three axis modes x {shared dict through the function, shared dict through the object, 1-D per-slice '
+        'list / 2-D per-signal list of pairwise different option sets} (enumerated), plus the option argument not given (None) '
+        'for one axis mode per shape (all in thorough); some dicts carry a "return_samples" entry (documented as ignored); '
+        'return_samples=False for about 40 % of the axis=(0,1) cases; C-ordered / Fortran-ordered / transposed-view arrays, '
+        'n_jobs in {1, 2, 3, 4}, perturbed completion orders (observed and logged); every returned table matched against candidates '
+        'computed directly (compute_features for axis=(0,1); compute_features_2d(axis=None) of every row / column slice for axis '
+        '0 / 1); placement matrix compared with the model, evaluated on the observed completion order; non-trivial = n0*n1 >= 2')
 EXHAUSTIVE = {'quick': False, 'thorough': True}
 ASSUMPTIONS = ['reference tables for axis 0 / 1 are produced by compute_features_2d(axis=None) itself (placement, not content, is checked here)']
 TRUST = ['Pool.imap is modelled as a reorder buffer keyed by submission index']
 AXV = {0: 0, 1: 1, 2: (0, 1)}
 
 
-def _one(rng, n0, n1, ax, mode):
-    if mode == 'dict':
+def _mode(c):
+    if 'kwmode' in c:
+        return c['kwmode']
+    return 'list' if c.get('kw') is not None else 'dict'
+
+
+def _one(rng, n0, n1, ax, mode, via):
+    if mode != 'list':
         kw = None
     elif ax == 2:
         kw = rng.sample(range(len(gl.KW_POOL)), min(n0 * n1, len(gl.KW_POOL)))
@@ -28,20 +37,30 @@ def _one(rng, n0, n1, ax, mode):
             return None
     else:
         kw = rng.sample(range(len(gl.KW_POOL)), n0 if ax == 0 else n1)
-    return {'kind': 'g3d/ax%d/%s' % (ax, mode), 'n0': n0, 'n1': n1, 'ax': ax, 'kw': kw, 'shared': rng.randrange(len(gl.KW_POOL)),
+    n_entries = len(kw) if kw is not None else (1 if mode == 'dict' else 0)
+    rs_key = [(rng.random() < 0.5 if rng.random() < 0.25 else None) for _ in range(n_entries)]
+    if via == 'group':
+        rs_key = [None] * n_entries
+    return {'kind': 'g3d/ax%d/%s' % (ax, mode), 'n0': n0, 'n1': n1, 'ax': ax, 'kwmode': mode, 'kw': kw,
+            'shared': rng.randrange(len(gl.KW_POOL)), 'rs_key': rs_key,
             'sig_ids': rng.sample(range(40), n0 * n1), 'n_jobs': rng.choice([1, 2, 3, 4]),
-            'schedule': rng.choice(['reverse', 'first_slow', 'zigzag', 'none']), 'via': (rng.choice(['func', 'func', 'group']) if kw is None else 'func'),
-            'return_samples': True, 'layout': rng.choice(['C', 'C', 'F', 'view'])}
+            'schedule': rng.choice(['reverse', 'first_slow', 'zigzag', 'none']), 'via': via,
+            # the flag is forwarded for axis=(0,1) only; the flattened-epoch analysis always keeps the sample columns
+            'return_samples': (rng.random() >= 0.4) if ax == 2 else True, 'layout': rng.choice(['C', 'C', 'F', 'view'])}
 
 
 def cases(rng, tier):
     out = []
     for n0 in (1, 2, 3):
         for n1 in (1, 2, 3):
+            none_ax = rng.randrange(3)
             for ax in (0, 1, 2):
-                for mode in ('dict', 'list'):
-                    for rep in range(1 if tier == 'quick' else 3):
-                        c = _one(rng, n0, n1, ax, mode)
+                combos = [('dict', 'func'), ('dict', 'group'), ('list', 'func')]
+                if tier != 'quick' or ax == none_ax:
+                    combos.append(('none', rng.choice(['func', 'func', 'group'])))
+                for mode, via in combos:
+                    for rep in range(1 if tier == 'quick' else 2):
+                        c = _one(rng, n0, n1, ax, mode, via)
                         if c:
                             out.append(c)
     return out
@@ -54,20 +73,36 @@ def _sid(ids):
     return a
 
 
+def _aid(c, pos):
+    """id of the option set expected at slice / signal position pos"""
+    mode = _mode(c)
+    if mode == 'list' and c['via'] != 'group':
+        return c['kw'][pos]
+    return gl.NONE_ID if mode == 'none' else gl.SHARED_ID
+
+
 def run_impl(c):
     import io, contextlib
     from bycycle.features import compute_features
     from bycycle.group import compute_features_2d, compute_features_3d
     n0, n1, ax = c['n0'], c['n1'], c['ax']
+    mode = _mode(c)
+    rs = c.get('return_samples', True)
     sigs = gl.relayout(np.array([[gl.make_sig(c['sig_ids'][i * n1 + j]) for j in range(n1)] for i in range(n0)]), c.get('layout', 'C'))
-    if c['via'] == 'group' and c['kw'] is not None:
+    if c['via'] == 'group' and mode == 'list':
         c = dict(c, via='func')
-    if c['kw'] is None:
-        kwobj = dict(gl.KW_POOL[c['shared']])
+    rs_key = c.get('rs_key') or []
+
+    def opt(pos, a):
+        return gl.option_set(a, rs_key[pos] if pos < len(rs_key) else None)
+    if mode == 'none':
+        kwobj = None
+    elif mode == 'dict':
+        kwobj = opt(0, c['shared'])
     elif ax == 2:
-        kwobj = [[dict(gl.KW_POOL[c['kw'][i * n1 + j]]) for j in range(n1)] for i in range(n0)]
+        kwobj = [[opt(i * n1 + j, c['kw'][i * n1 + j]) for j in range(n1)] for i in range(n0)]
     else:
-        kwobj = [dict(gl.KW_POOL[a]) for a in c['kw']]
+        kwobj = [opt(i, a) for i, a in enumerate(c['kw'])]
     # tasks, in submission order, identified by their first sample
     if ax == 0:
         tasks = [sigs[i, 0] for i in range(n0)]
@@ -77,59 +112,74 @@ def run_impl(c):
         tasks = [sigs[i, j] for i in range(n0) for j in range(n1)]
     orig = gl.install_delays(tasks, c['schedule'])
     out = {}
+    err = None
     try:
         with contextlib.redirect_stdout(io.StringIO()):
             if c['via'] == 'group':
                 from bycycle import BycycleGroup
-                kw = gl.KW_POOL[c['shared']]
-                bg = BycycleGroup(center_extrema=kw['center_extrema'], burst_method=kw.get('burst_method', 'cycles'),
-                                  thresholds=dict(kw['threshold_kwargs']), find_extrema_kwargs=kw.get('find_extrema_kwargs'),
-                                  return_samples=True)
+                if mode == 'none':
+                    bg = BycycleGroup(return_samples=rs)
+                else:
+                    kw = gl.KW_POOL[c['shared']]
+                    bg = BycycleGroup(center_extrema=kw['center_extrema'], burst_method=kw.get('burst_method', 'cycles'),
+                                      thresholds=dict(kw['threshold_kwargs']), find_extrema_kwargs=kw.get('find_extrema_kwargs'),
+                                      return_samples=rs)
                 bg.fit(sigs, gl.FS, gl.FR, axis=AXV[ax], n_jobs=c['n_jobs'])
                 dfs = bg.df_features
                 out['models_ok'] = bool(all(bg.models[i][j].df_features is dfs[i][j] and np.array_equal(bg.models[i][j].sig, sigs[i, j])
                                             for i in range(n0) for j in range(n1)))
             else:
-                dfs = compute_features_3d(sigs, gl.FS, gl.FR, compute_features_kwargs=kwobj, axis=AXV[ax], n_jobs=c['n_jobs'])
+                dfs = compute_features_3d(sigs, gl.FS, gl.FR, compute_features_kwargs=kwobj, axis=AXV[ax], n_jobs=c['n_jobs'],
+                                          return_samples=rs)
     except Exception as e:
-        gl.uninstall(orig)
-        return {'err': exc_kind(e), 'msg': str(e)[:200]}
-    gl.uninstall(orig)
-    kws = sorted(set(c['kw'])) if c['kw'] is not None else [c['shared']]
+        err = {'err': exc_kind(e), 'msg': str(e)[:200]}
+    finally:
+        out['completion'] = gl.uninstall(orig, c['schedule'])
+    if err is not None:
+        out.update(err)
+        return out
+    if mode == 'list':
+        kws = [(a, a) for a in sorted(set(c['kw']))]
+    elif mode == 'dict':
+        kws = [(gl.SHARED_ID, c['shared'])]
+    else:
+        kws = [(gl.NONE_ID, None)]
     cands = {}
-    for a in kws:
-        aid = a if c['kw'] is not None else gl.SHARED_ID
-        kw = dict(gl.KW_POOL[a])
-        if c['via'] == 'group' and 'find_extrema_kwargs' not in kw:
+    ref_errors = []
+    for aid, a in kws:
+        kw = gl.option_set(a) if a is not None else None
+        if c['via'] == 'group' and kw is not None and 'find_extrema_kwargs' not in kw:
             kw['find_extrema_kwargs'] = None
         if ax == 2:
             for i in range(n0):
                 for j in range(n1):
-                    cands[(aid, i * n1 + j, 0)] = compute_features(sigs[i, j], gl.FS, gl.FR, return_samples=True, **kw)
+                    cands[(aid, i * n1 + j, 0)] = compute_features(sigs[i, j], gl.FS, gl.FR, return_samples=rs, **(kw or {}))
         else:
             slices = [(_sid([i * n1 + j for j in range(n1)]), sigs[i]) for i in range(n0)] + \
                      [(_sid([i * n1 + j for i in range(n0)]), sigs[:, j]) for j in range(n1)]
             for first_id, sl in slices:
                 try:
-                    eps = compute_features_2d(np.array(sl), gl.FS, gl.FR, compute_features_kwargs=dict(kw), axis=None)
-                except Exception:
+                    if kw is None:
+                        eps = compute_features_2d(np.array(sl), gl.FS, gl.FR, axis=None)
+                    else:
+                        eps = compute_features_2d(np.array(sl), gl.FS, gl.FR, compute_features_kwargs=dict(kw), axis=None)
+                except Exception as e:
+                    # the flattened-epoch analysis of this slice itself fails: kept, and named by the oracle if that slice is needed
+                    ref_errors.append([aid, first_id, exc_kind(e), str(e)[:120]])
                     continue
                 for e, t in enumerate(eps):
                     cands.setdefault((aid, first_id, e), t)
+    out['ref_errors'] = ref_errors
     shape_ok = isinstance(dfs, list) and len(dfs) == n0 and all(isinstance(r, list) and len(r) == n1 for r in dfs)
     out['shape_ok'] = bool(shape_ok)
     placement = []
     if shape_ok:
+        want = _want(c)
         for i in range(n0):
             row = []
             for j in range(n1):
-                if ax == 2:
-                    prefer = ((c['kw'][i * n1 + j] if c['kw'] is not None else gl.SHARED_ID), i * n1 + j, 0)
-                elif ax == 0:
-                    prefer = ((c['kw'][i] if c['kw'] is not None else gl.SHARED_ID), _sid([i * n1 + q for q in range(n1)]), j)
-                else:
-                    prefer = ((c['kw'][j] if c['kw'] is not None else gl.SHARED_ID), _sid([q * n1 + j for q in range(n0)]), i)
-                row.append(gl.match(dfs[i][j], cands, prefer))
+                df = dfs[i][j]
+                row.append(gl.match(df, cands, tuple(want[i][j])) if hasattr(df, 'columns') else [gl.MISSING] * 3)
             placement.append(row)
     out['placement'] = placement
     return out
@@ -137,17 +187,16 @@ def run_impl(c):
 
 def _want(c):
     n0, n1, ax = c['n0'], c['n1'], c['ax']
-    per = c['kw'] is not None and c['via'] != 'group'
     m = []
     for i in range(n0):
         row = []
         for j in range(n1):
             if ax == 2:
-                row.append([c['kw'][i * n1 + j] if per else gl.SHARED_ID, i * n1 + j, 0])
+                row.append([_aid(c, i * n1 + j), i * n1 + j, 0])
             elif ax == 0:
-                row.append([c['kw'][i] if per else gl.SHARED_ID, _sid([i * n1 + q for q in range(n1)]), j])
+                row.append([_aid(c, i), _sid([i * n1 + q for q in range(n1)]), j])
             else:
-                row.append([c['kw'][j] if per else gl.SHARED_ID, _sid([q * n1 + j for q in range(n0)]), i])
+                row.append([_aid(c, j), _sid([q * n1 + j for q in range(n0)]), i])
         m.append(row)
     return m
 
@@ -161,6 +210,10 @@ def oracle(c, o):
     for i in range(c['n0']):
         for j in range(c['n1']):
             if o['placement'][i][j] != want[i][j]:
+                for aid, first_id, kind, msg in o.get('ref_errors', []):
+                    if [aid, first_id] == want[i][j][:2]:
+                        return ('entry [%d][%d] is a table, but the flattened-epoch analysis of that slice alone (compute_features_2d, '
+                                'axis=None, same options) raised %s (%s)' % (i, j, kind, msg))
                 return 'entry [%d][%d] holds (options, slice/signal, epoch) = %s, expected %s' % (i, j, o['placement'][i][j], want[i][j])
     if o.get('models_ok') is False:
         return 'BycycleGroup.models do not mirror df_features / sigs position by position'
@@ -172,14 +225,20 @@ def nontrivial(c, o):
 
 
 def kind_of(c, o):
-    return '%s/%dx%d' % (c['kind'], c['n0'], c['n1'])
+    return 'g3d/ax%d/%s%s/%dx%d' % (c['ax'], _mode(c), '-object' if c['via'] == 'group' else '', c['n0'], c['n1'])
+
+
+def extra_evidence():
+    return {'completion_order_observed': dict(gl.STATS)}
 
 
 def coq_case(c, o):
     if 'err' in o or not o.get('shape_ok'):
         return None
-    per = c['kw'] is not None and c['via'] != 'group'
-    kw = '(Some %s)' % gl.nat_list(c['kw']) if per else 'None'
+    mode = _mode(c)
+    if mode == 'list' and c['via'] == 'group':
+        mode = 'dict'
     ntasks = {0: c['n0'], 1: c['n1'], 2: c['n0'] * c['n1']}[c['ax']]
-    inp = '(G3 %d%%nat %s %s %d%%nat %d%%nat)' % (c['ax'], gl.nat_list(gl.sigma_of(c['schedule'], ntasks)), kw, c['n0'], c['n1'])
+    inp = '(G3 %d%%nat %s %s %d%%nat %d%%nat)' % (c['ax'], gl.nat_list(gl.sigma_for(c['schedule'], ntasks, o.get('completion'))),
+                                                  gl.kw_term(mode, c['kw']), c['n0'], c['n1'])
     return inp, gl.coq_triples(o['placement'])
